@@ -21,5 +21,17 @@ CLAIMS["C14"] = {
     "note": "Trusted: Lean kernel + standard axioms; hand-written model OH/Model/Schedule.lean; harness/driver; the hook accessor. The former defect D6 (from_ranges lost nested ranges) is repaired in /repo (fix: 656bbfa) and the model follows the repaired code; `fromRangesBuggy_covers_fails` keeps the refutation of the old code. Not proved (driver only): exact comments of iterated ranges; the strongest 'isolated range keeps its comments' clause.",
     "technique": "Lean 4 theorems (fun_induction + grind, list induction) on a hand-written model + exhaustive small-grid and random history correspondence",
 }
+CLAIMS["C15"] = {
+    "text": "All clauses of C15 are Lean theorems about the model of CompactCalendar for every insertion history of valid dates (no panic, window invariant, abstraction = inserted set, insert reports newness, contains/count/ordered iteration/first_after = sorted set for any query date, structural equality = set equality on reachable values, deserialize(serialize c ++ rest) = (c, rest) and its stream version). Tie to the code: histories replayed on the real crate and compared step by step with a plain sorted-set oracle and with the model, incl. permuted histories, concatenated/truncated/corrupted streams and the month/year bit operations.",
+    "design_ref": "§5 C15",
+    "note": "Trusted: Lean kernel + standard axioms; hand-written model OH/Model/CompactCalendar.lean (Nat masks with testBit/or/shift, little-endian bytes); harness/driver. Modelled not verified: chrono date validity, VecDeque, u32 bit intrinsics. Observed outside the property: deserialize accepts arbitrary bytes (such calendars can panic later); insert far from the window allocates every year in the gap.",
+    "technique": "Lean 4 theorems (bit lemmas, foldl induction over histories) on a hand-written model + history correspondence against a sorted-set oracle",
+}
+CLAIMS["C01"] = {
+    "text": "The documented semantics are written as an executable, declarative Lean specification (OH/Spec/Rules.lean: selector predicates with existential year instances, pointwise rule combination, spans continued past midnight); the property predicate c01Holds (pointwise equality on all 1440 minutes) is evaluated on the implementation's schedule_at output at run time, and the hand-written model of the evaluator (tied to the code by correspondence, 0 disagreements) mirrors the repaired code. Lean theorems so far cover the outside-range clauses, independence from the bound, 'holidays only from the context' and closed forms of selector predicates; the refinement theorem model ⊑ spec is under construction — until it lands this check is a proof-backed specification oracle, not a full proof, and says so.",
+    "design_ref": "§5 C01",
+    "note": "Trusted: the hand-written specification (adopts the code's reading where the property text is silent, listed in the file); the model; chrono tie by the chr.* suite; harness/driver. Six genuine defects were repaired in /repo (D10/D19, D11, D12, D18 and the hint defects) and one is an open known finding (D20-dated-window, decidable class on the rule). Out of scope by definition: dated ranges from a yearless date to a date with a year (no documented meaning).",
+    "technique": "Lean 4 executable specification + theorems on a hand-written model, property predicate evaluated on the implementation's output, differential correspondence",
+}
 ALL = [f"C{i:02d}" for i in range(1, 21)]
 NOT_APPLICABLE = {p: PENDING for p in ALL if p not in CLAIMS}
